@@ -129,6 +129,11 @@ func c14Do(s *Sys, op string, i int) string {
 	case "patch":
 		return writeObs(s.Req(tok, logical.PatchOperation, "kv2/data/s", map[string]interface{}{
 			"data": map[string]interface{}{"y": fmt.Sprintf("q%d", i)}}))
+	case "patchempty1":
+		// a patch that changes nothing, presenting cas=1: still a write (it must consume the
+		// version it was checked against and receive the next version number)
+		return writeObs(s.Req(tok, logical.PatchOperation, "kv2/data/s", map[string]interface{}{
+			"data": map[string]interface{}{}, "options": map[string]interface{}{"cas": 1}}))
 	case "read":
 		return readObs(s.Req(tok, logical.ReadOperation, "kv2/data/s", nil))
 	case "read1":
@@ -346,6 +351,18 @@ func (m *c14Model) apply(op string, i int) string {
 		m.cur++
 		m.vers[m.cur] = n
 		return fmt.Sprintf("ok:v%d", m.cur)
+	case "patchempty1":
+		if m.cur != 1 {
+			return "err:cas-mismatch"
+		}
+		e := m.vers[m.cur]
+		if e == nil || e.deleted || e.destroyed {
+			return ""
+		}
+		n := &c14Ver{x: e.x, y: e.y, hasY: e.hasY}
+		m.cur++
+		m.vers[m.cur] = n
+		return fmt.Sprintf("ok:v%d", m.cur)
 	case "read":
 		return m.read(0)
 	case "read1":
@@ -445,6 +462,8 @@ func TestVerifC14(t *testing.T) {
 		} else {
 			sets = append(sets, [][]string{{"putcas1", "putcas1", "putcas1"}, {"putcas1", "put", "read"}, {"put", "put", "metamax1"}, {"patch", "del", "read"}}...)
 		}
+		// equal-cas writers where one (or both) is a patch that changes nothing
+		sets = append(sets, []string{"putcas1", "patchempty1"}, []string{"patchempty1", "patchempty1"})
 		for _, ops := range sets {
 			name := strings.Join(ops, "+")
 			// the sequential reference is only needed by the shards that own work here;
@@ -462,7 +481,7 @@ func TestVerifC14(t *testing.T) {
 	}
 	// ---- S on non-transactional storage: only the per-key lock serialises writers
 	if only == "" || only == "S" {
-		for _, ops := range multisets([]string{"putcas1", "put", "patch", "del", "metamax1"}, 2) {
+		for _, ops := range append(multisets([]string{"putcas1", "put", "patch", "del", "metamax1"}, 2), []string{"putcas1", "patchempty1"}, []string{"patchempty1", "patchempty1"}) {
 			name := "nontxn:" + strings.Join(ops, "+")
 			seq, perms := seqForImg(getNT(), ops)
 			exploreScenario(res, "c14", name, map[string]interface{}{"ops": ops, "nonTxn": true}, c14Body(t, getNT(), ops, seq, perms), bound, false, &item)
@@ -474,7 +493,7 @@ func TestVerifC14(t *testing.T) {
 		if vout.Thorough() {
 			depth = 4
 		}
-		hops := []string{"putcas1", "put", "patch", "read", "read1", "del", "delv1", "undelv1", "destroyv1"}
+		hops := []string{"putcas1", "put", "patch", "patchempty1", "read", "read1", "del", "delv1", "undelv1", "destroyv1"}
 		count := 0
 		var rec func(h []string)
 		rec = func(h []string) {
